@@ -27,31 +27,31 @@ type simProp struct {
 
 // histFacts are generic facts about a history used by the non-triviality rules.
 type histFacts struct {
-	Leaders         map[string]bool // "node/term"
-	LeaderChanges   int
-	Restarts        int
-	ImageRestarts   int
-	Crashes         int
-	StorageCrashes  int
-	Applies         int
-	AppliedBy       map[uint64]map[string]bool
-	CommonApplied   bool
-	FirstCommitSeq  int
-	LeaderAfterCmt  bool
-	AckedWrites     int
-	Reads           int
-	OkReads         int
-	Snapshots       int
-	Installs        int
-	Timeouts        int
-	TimeoutApplied  int
-	MaxTerm         uint64
-	HeldReleased    int
-	Dups            int
-	Drops           int
-	MemberOK        int
-	MemberReqs      int
-	Elections       int
+	Leaders        map[string]bool // "node/term"
+	LeaderChanges  int
+	Restarts       int
+	ImageRestarts  int
+	Crashes        int
+	StorageCrashes int
+	Applies        int
+	AppliedBy      map[uint64]map[string]bool
+	CommonApplied  bool
+	FirstCommitSeq int
+	LeaderAfterCmt bool
+	AckedWrites    int
+	Reads          int
+	OkReads        int
+	Snapshots      int
+	Installs       int
+	Timeouts       int
+	TimeoutApplied int
+	MaxTerm        uint64
+	HeldReleased   int
+	Dups           int
+	Drops          int
+	MemberOK       int
+	MemberReqs     int
+	Elections      int
 }
 
 func facts(res *sim.Result) *histFacts {
